@@ -208,8 +208,11 @@ void Symmetrizer::compute(bool ignore_symmetries)
                 unsigned short Spin = IndexInfo.getInfo(i).Spin;
                 if ( Spin == up ) SpinUpIndices.push_back(i);
             }
-            Operator op_sz = Pomerol::OperatorPresets::Sz(IndexSize, SpinUpIndices);
-            if (this->checkSymmetry(op_sz)) INFO("[ H ," << op_sz << " ]=0");
+            // S_z is defined only if every spin-up index has a spin-down partner
+            if (2*SpinUpIndices.size() == IndexSize) {
+                Operator op_sz = Pomerol::OperatorPresets::Sz(IndexSize, SpinUpIndices);
+                if (this->checkSymmetry(op_sz)) INFO("[ H ," << op_sz << " ]=0");
+            }
         };
     };
 
